@@ -82,3 +82,8 @@ func VerifC06ReleaseDNS(s *ServerDNS) { s.workerPool.Release() }
 // VerifC06ReleaseQUIC releases the worker pool of a server that was never
 // started.
 func VerifC06ReleaseQUIC(s *ServerQUIC) { s.pool.Release() }
+
+// VerifC06PackWithPrefix calls the unexported packWithPrefix.
+func VerifC06PackWithPrefix(m *dns.Msg, buf []byte) (packed []byte, err error) {
+	return packWithPrefix(m, buf)
+}
